@@ -58,12 +58,15 @@ func (fs fullSpec) oldestKept() uint64 {
 }
 
 type fullStart struct {
-	Prune     bool `json:"prune,omitempty"` // optional migration "prune-mode" enabled
-	HeadState bool `json:"headState"`       // optional migration "new-state" enabled
-	Inflate   bool `json:"inflate"`
-	CancelAt  int  `json:"cancelAt"`         // cancel right after this store commit (0 = never)
-	CrashAt   int  `json:"crashAt"`          // the process dies right after this store commit (0 = never)
-	FailAt    int  `json:"failAt,omitempty"` // this commit attempt fails (0 = never)
+	Prune      bool  `json:"prune,omitempty"` // optional migration "prune-mode" enabled
+	HeadState  bool  `json:"headState"`       // optional migration "new-state" enabled
+	Inflate    bool  `json:"inflate"`
+	CancelAt   int   `json:"cancelAt"`             // cancel right after this store commit (0 = never)
+	CrashAt    int   `json:"crashAt"`              // the process dies right after this store commit (0 = never)
+	FailAt     int   `json:"failAt,omitempty"`     // this commit attempt fails (0 = never)
+	FailGetAt  int64 `json:"failGetAt,omitempty"`  // this Get/Has fails (0 = never)
+	FailGetAll bool  `json:"failGetAll,omitempty"` // … and every later one
+	FailIterAt int64 `json:"failIterAt,omitempty"` // this NewIterator fails
 }
 
 type fullHistory struct {
@@ -193,31 +196,33 @@ type recMig struct {
 }
 
 type fullRun struct {
-	mu         sync.Mutex
-	store      *faultStore
-	inMigrate  bool
-	modelTick  int // ticks in the runner model's sense: runner commits + Before + Migrate calls
-	cancelTk   int // model tick during which the context was cancelled (never if not)
-	crashTk    int
-	obs        map[int]*observed
-	image      *memory.Database
-	calls      []string
-	btImages   []string // layout of the chain data whenever blocktransactions.Migrate starts
-	sdlNext    uint64   // checkpoint statedifflength.Before received
-	sdlPre     []string // abstract state when statedifflength.Migrate was called (nil: not called)
-	sdlPost    []string // … when it returned (nil: the run was cut by the crash image before)
-	sdlRet     string
-	sdlIdx     int
-	crashInSdl bool
+	mu           sync.Mutex
+	store        *faultStore
+	inMigrate    bool
+	modelTick    int // ticks in the runner model's sense: runner commits + Before + Migrate calls
+	cancelTk     int // model tick during which the context was cancelled (never if not)
+	crashTk      int
+	obs          map[int]*observed
+	image        *memory.Database
+	calls        []string
+	btImages     []string // layout of the chain data whenever blocktransactions.Migrate starts
+	sdlNext      uint64   // checkpoint statedifflength.Before received
+	sdlPre       []string // abstract state when statedifflength.Migrate was called (nil: not called)
+	sdlPost      []string // … when it returned (nil: the run was cut by the crash image before)
+	sdlRet       string
+	sdlIdx       int
+	crashInSdl   bool
+	inDeprecated bool
 	// headstate observation (same scheme)
-	hsPre, hsPost []string
-	hsRet         string
-	crashInHs     bool
-	nContracts    int
-	seed          uint64
-	failInMigrate bool // an injected write failure happened inside a migration
-	failTk        int  // model tick of a failed RUNNER write (0: none)
-	height        uint64
+	hsPre, hsPost   []string
+	hsRet           string
+	crashInHs       bool
+	nContracts      int
+	seed            uint64
+	failInMigrate   bool // an injected write failure happened inside a migration
+	readFailOutside bool // an injected read failure hit the runner's own reads / the deprecated step
+	failTk          int  // model tick of a failed RUNNER write (0: none)
+	height          uint64
 }
 
 func (m *recMig) Before(st []byte) error {
@@ -246,17 +251,17 @@ func (m *recMig) Migrate(ctx context.Context, database db.KeyValueStore, n *netw
 	fr.calls = append(fr.calls, fmt.Sprintf("M%d", m.idx))
 	fr.mu.Unlock()
 	if m.idx == 0 {
-		fr.btImages = append(fr.btImages, layoutOf(database, fr.height))
+		fr.btImages = append(fr.btImages, layoutOf(fr.store.Database, fr.height))
 	}
 	if m.idx == fr.sdlIdx {
-		fr.sdlPre = sdlAbstract(database, fr.height)
+		fr.sdlPre = sdlAbstract(fr.store.Database, fr.height)
 	}
 	if m.idx == 2 {
-		fr.hsPre = hsAbstract(database, fr.seed, fr.nContracts)
+		fr.hsPre = hsAbstract(fr.store.Database, fr.seed, fr.nContracts)
 	}
 	st, err := m.inner.Migrate(ctx, database, n, l)
 	if m.idx == 2 {
-		fr.hsPost = hsAbstract(database, fr.seed, fr.nContracts)
+		fr.hsPost = hsAbstract(fr.store.Database, fr.seed, fr.nContracts)
 		switch {
 		case err != nil && st != nil && errors.Is(err, context.Canceled):
 			fr.hsRet = "rerun"
@@ -269,7 +274,7 @@ func (m *recMig) Migrate(ctx context.Context, database db.KeyValueStore, n *netw
 		}
 	}
 	if m.idx == fr.sdlIdx {
-		fr.sdlPost = sdlAbstract(database, fr.height)
+		fr.sdlPost = sdlAbstract(fr.store.Database, fr.height)
 		switch {
 		case err != nil:
 			fr.sdlRet = "failed"
@@ -331,6 +336,9 @@ type fullOutcome struct {
 	hsPre, hsPost   []string
 	hsRet           string
 	failedWrites    int
+	failedReads     int64
+	gets, iters     int64
+	readFailOutside bool
 }
 
 // realFullStart runs NewRunner + Run with the real migrations on (a copy of) d.
@@ -346,10 +354,18 @@ func realFullStart(d *memory.Database, spec fullSpec, sp fullStart) fullOutcome 
 		store.inflate = 96 * 1024 * 1024
 	}
 	store.failAt = sp.FailAt
+	store.getFailAt, store.getFailAll, store.iterFailAt = sp.FailGetAt, sp.FailGetAll, sp.FailIterAt
 	ctx, cancel := context.WithCancel(context.Background())
 	defer cancel()
 	fr := &fullRun{store: store, obs: map[int]*observed{}, cancelTk: never, crashTk: never, height: height, sdlIdx: 3,
 		nContracts: spec.Contracts, seed: spec.Chain.Seed}
+	store.onReadFail = func() {
+		fr.mu.Lock()
+		if !fr.inMigrate || fr.inDeprecated {
+			fr.readFailOutside = true
+		}
+		fr.mu.Unlock()
+	}
 	store.onFail = func() {
 		fr.mu.Lock()
 		defer fr.mu.Unlock()
@@ -384,11 +400,18 @@ func realFullStart(d *memory.Database, spec fullSpec, sp fullStart) fullOutcome 
 	// database is at their last version), then the schema runner
 	fr.mu.Lock()
 	fr.inMigrate = true // their commits are not runner ticks
+	fr.inDeprecated = true
 	fr.mu.Unlock()
 	depErr := deprecated.MigrateIfNeeded(ctx, store, &networks.Sepolia, log.NewNopZapLogger())
 	fr.mu.Lock()
 	fr.inMigrate = false
+	fr.inDeprecated = false
 	fr.mu.Unlock()
+	if depErr != nil && store.readsFailed.Load() > 0 {
+		out.open, out.after, out.readFailOutside, out.failedReads = "read-failed", d, true, store.readsFailed.Load()
+		out.line = fmt.Sprintf("run %s %d %d", regS, never, never)
+		return out
+	}
 	if depErr != nil {
 		out.open = "deprecated-failed:" + depErr.Error()
 		out.after = d
@@ -396,6 +419,11 @@ func realFullStart(d *memory.Database, spec fullSpec, sp fullStart) fullOutcome 
 		return out
 	}
 	runner, err := migration.NewRunner(reg, store, &networks.Sepolia, log.NewNopZapLogger())
+	if err != nil && store.readsFailed.Load() > 0 {
+		out.open, out.after, out.readFailOutside, out.failedReads = "read-failed", d, true, store.readsFailed.Load()
+		out.line = fmt.Sprintf("run %s %d %d", regS, never, never)
+		return out
+	}
 	if err != nil {
 		out.open = "refused"
 		out.after = d
@@ -432,6 +460,7 @@ func realFullStart(d *memory.Database, spec fullSpec, sp fullStart) fullOutcome 
 		out.hsPost, out.hsRet = hsAbstract(fr.image, fr.seed, fr.nContracts), "crashed"
 	}
 	out.failedWrites = store.failed
+	out.failedReads, out.gets, out.iters, out.readFailOutside = store.readsFailed.Load(), store.reads.Load(), store.iters.Load(), fr.readFailOutside
 	if fr.image != nil && fr.sdlPre != nil && (fr.sdlPost == nil || fr.crashInSdl) {
 		// the process died inside statedifflength.Migrate: the image is what it left
 		out.sdlPost, out.sdlRet = sdlAbstract(fr.image, height), "crashed"
@@ -562,6 +591,16 @@ func (h *harness) fullHistoryCase(hist fullHistory, family string) {
 			res.Violate(lib.Violation{Sig: "upgrade-hangs", What: fmt.Sprintf("start %d does not return", si), Replay: hist})
 			return
 		}
+		if o.failedReads > 0 {
+			res.Hit("full-start:read-failed")
+		}
+		if o.open == "read-failed" {
+			// the fault hit before the runner existed: the start failed, nothing may have changed
+			if same, why := sameDump(dump(o.after), dump(cur)); !same {
+				res.Violate(lib.Violation{Sig: "upgrade-read-error-before-run-changes-database", What: why, Replay: hist})
+			}
+			continue
+		}
 		if strings.HasPrefix(o.open, "deprecated-failed") {
 			res.Violate(lib.Violation{Sig: "deprecated-migrations-fail-on-current-database", What: o.open, Replay: hist})
 			return
@@ -586,7 +625,7 @@ func (h *harness) fullHistoryCase(hist fullHistory, family string) {
 		if o.failedWrites > 0 {
 			res.Hit("full-start:write-failed")
 		}
-		if !o.crashed && o.result == "err" && sp.CancelAt == 0 && o.failedWrites == 0 {
+		if !o.crashed && o.result == "err" && sp.CancelAt == 0 && o.failedWrites == 0 && o.failedReads == 0 {
 			msg := "an undisturbed start returns an error"
 			for i, ob := range o.obs {
 				if ob.errKind == "o" {
@@ -626,6 +665,10 @@ func (h *harness) fullHistoryCase(hist fullHistory, family string) {
 }
 
 func (h *harness) compareFullStart(hist fullHistory, si int, o fullOutcome) {
+	if o.readFailOutside {
+		h.res.Hit("full-start:runner-read-failed(model-skipped)")
+		return
+	}
 	h.compareSDL(hist, si, o)
 	h.compareHS(hist, si, o)
 	ans := h.bt.ask(o.line)
@@ -719,6 +762,14 @@ func (h *harness) fullAll() {
 				h.fullHistoryCase(fullHistory{Spec: fixed, Starts: []fullStart{{HeadState: true, Inflate: true, FailAt: k}}}, "fixed-writefail")
 			}
 		}
+		rstep := int64(step)
+		for g := int64(1); g <= tw.gets; g += tw.gets/20*rstep + 1 {
+			h.fullHistoryCase(fullHistory{Spec: fixed, Starts: []fullStart{{HeadState: true, Inflate: true, FailGetAt: g}}}, "fixed-readfault")
+			h.fullHistoryCase(fullHistory{Spec: fixed, Starts: []fullStart{{HeadState: true, FailGetAt: g, FailGetAll: true}}}, "fixed-readfault")
+		}
+		for i := int64(1); i <= tw.iters; i += tw.iters/15*rstep + 1 {
+			h.fullHistoryCase(fullHistory{Spec: fixed, Starts: []fullStart{{HeadState: true, Inflate: true, FailIterAt: i}}}, "fixed-readfault")
+		}
 	}
 	// the same with the history pruner enabled (dense chain: every block has transactions)
 	pr := fullSpec{Chain: chainSpec{Seed: 9, Counts: repeatInt(2, 24), Layout: strings.Repeat("o", 24)}, Contracts: 3, Prunable: true}
@@ -734,6 +785,14 @@ func (h *harness) fullAll() {
 		for k := 1; k <= tw.commits; k += step {
 			h.fullHistoryCase(fullHistory{Spec: pr, Starts: []fullStart{{Prune: true, HeadState: true, Inflate: true, CrashAt: k}}}, "prune-crash")
 			h.fullHistoryCase(fullHistory{Spec: pr, Starts: []fullStart{{Prune: true, HeadState: true, Inflate: true, CancelAt: k}}}, "prune-cancel")
+		}
+		// read faults through the history pruner as well
+		for g := int64(1); g <= tw.gets; g += tw.gets/25*int64(step) + 1 {
+			h.fullHistoryCase(fullHistory{Spec: pr, Starts: []fullStart{{Prune: true, HeadState: true, Inflate: true, FailGetAt: g}}}, "prune-readfault")
+			h.fullHistoryCase(fullHistory{Spec: pr, Starts: []fullStart{{Prune: true, HeadState: true, FailGetAt: g, FailGetAll: true}}}, "prune-readfault")
+		}
+		for i := int64(1); i <= tw.iters; i += tw.iters/15*int64(step) + 1 {
+			h.fullHistoryCase(fullHistory{Spec: pr, Starts: []fullStart{{Prune: true, HeadState: true, Inflate: true, FailIterAt: i}}}, "prune-readfault")
 		}
 	}
 	n := h.f.Scale(40, 800)
@@ -842,7 +901,7 @@ func (h *harness) compareSDL(hist fullHistory, si int, o fullOutcome) {
 	if o.sdlPre == nil || o.sdlPost == nil || hist.Spec.Chain.NoHeight {
 		return
 	}
-	h.sdlTransition(sdlObs{o.sdlNext, o.sdlPre, o.sdlPost, o.sdlRet, o.failedWrites > 0}, map[string]any{"history": hist, "start": si})
+	h.sdlTransition(sdlObs{o.sdlNext, o.sdlPre, o.sdlPost, o.sdlRet, o.failedWrites > 0 || o.failedReads > 0}, map[string]any{"history": hist, "start": si})
 }
 
 type sdlObs struct {
